@@ -154,7 +154,7 @@ class Gen:
                 ops.append("dn")
                 ops.append("pn " + self.outs("patch"))
             elif x < 0.34:
-                ops.append(r.choice(["dn", "dn", "dc", "dn", "dc", "dnt"]))
+                ops.append(r.choice(["dn", "dn", "dc", "dn", "dc", "dnt", "dn", "dc", "rln", "rlc"]))
             elif x < 0.52:
                 ops.append("pn " + self.outs("patch"))
             elif x < 0.62:
@@ -484,11 +484,29 @@ def sc_bootstrap_unfinalized(r):
     return ops
 
 
-SCENARIOS = [sc_replace_cc, sc_stale_fetch, sc_dual_exhaust, sc_faults, sc_cc_retry, sc_restart, sc_cursor, sc_labels, sc_service, sc_preset, sc_terminating_overlap, sc_dual_blocked, sc_bootstrap_unfinalized]
+def sc_replaced_node(r):
+    """a node served by the controller is deleted and created again under the same name with other pod CIDRs while the
+    watch is broken; the informer relists (one update, no delete), the node is synced, deleted again"""
+    (a, l, h1), _ = _overlapping_v4(r)
+    sel, good, bad = _rng_sel_and_labels(r)
+    dual = r.random() < 0.3
+    v6 = tok6(0xfd000000 << 96, 122) if dual else "-"
+    ops = ["cc+ c1 %s %s %d %s - 1 1" % (tok4(a, l), v6, h1, sel), "dc", "pc ok", "n+ n1 %s -" % good, "dn", "pn ok"]
+    ops += r.choice([[], ["dn"]])
+    blk = tok4(a, 32 - h1)
+    other = r.choice([blk + "," + tok6((0xfd000000 << 96) + 16 * r.randrange(4), 124), tok6((0xfd000000 << 96) + 16, 124),
+                      tok4(a + (1 << h1), 32 - h1), blk, tok4(0xac100000, 28), "-"])
+    ops += ["n- n1", "n+ n1 %s %s" % (r.choice([good, bad]), other), "rln", "pn ok", "pn ok"]
+    ops += ["n+ n2 %s -" % good, "dn", "pn ok"]
+    ops += ["n- n1", r.choice(["dn", "dnt", "rln"]), "pn ok", "cc- c1", "dc", "dc", "pc ok", "n- n2", "dn", "dn", "tick", "pc ok", "pc ok"]
+    return ops
+
+
+SCENARIOS = [sc_replace_cc, sc_stale_fetch, sc_dual_exhaust, sc_faults, sc_cc_retry, sc_restart, sc_cursor, sc_labels, sc_service, sc_preset, sc_terminating_overlap, sc_dual_blocked, sc_bootstrap_unfinalized, sc_replaced_node]
 
 
 def noise_op(r):
-    return r.choice(["dn", "dc", "tick", "pn ok", "pc ok", "rn", "rc", "dn", "pn ok",
+    return r.choice(["dn", "dc", "tick", "pn ok", "pc ok", "rn", "rc", "dn", "pn ok", "rln", "rlc",
                      "n- " + r.choice(NODES), "nl %s %s" % (r.choice(NODES), r.choice(LABELSETS)),
                      "pn fail,fail,fail", "pc fail", "dnt", "nd " + r.choice(NODES), "ccf c1 other.io/f"])
 
@@ -573,12 +591,17 @@ def gen_malformed(rng, n):
                 ops += [cc(r.choice(CCS)), "dc", "pc ok"]
             elif k < 0.6:
                 ops += [node(r.choice(NODES)), "dn", "pn ok"]
-            elif k < 0.7:
+            elif k < 0.68:
                 ops += ["n- " + r.choice(NODES), r.choice(["dn", "dnt"])]
+            elif k < 0.74:
+                # a node is deleted and created again with other content while the watch is broken: the informer sees one update,
+                # and later a deletion carrying the new content
+                nm = r.choice(NODES)
+                ops += ["n- " + nm, node(nm), "rln", "pn ok", "n- " + nm, r.choice(["dn", "dnt", "rln"])]
             elif k < 0.8:
                 ops += ["cc- " + r.choice(CCS), "dc", "pc ok"]
             else:
-                ops += [r.choice(["pn ok", "pc ok", "tick", "dn", "dc", "rn", "rc", "nd " + r.choice(NODES)])]
+                ops += [r.choice(["pn ok", "pc ok", "tick", "dn", "dc", "rn", "rc", "rln", "rlc", "nd " + r.choice(NODES)])]
         if r.random() < 0.3:
             ops += ["crash", "construct %s %s -" % (svc1, svc2), "start", "pn ok", "pc ok"]
         cases.append(("mal%d" % i, ops))
